@@ -4,6 +4,7 @@ import ProbLogProofs.Lemmas.FormulaBasic
 import ProbLogProofs.Lemmas.FormulaOps
 import ProbLogProofs.Lemmas.FormulaAcyclic
 import ProbLogProofs.Lemmas.FormulaAtom
+import ProbLogProofs.Lemmas.GroundNames
 /-!
 # Ground acyclic programs: invariants of the grounding-engine model (1) — definitions and builder steps
 
@@ -12,7 +13,7 @@ import ProbLogProofs.Lemmas.FormulaAtom
 the value `v` under every such valuation.
 -/
 namespace ProbLogProofs.GroundInv
-open ProbLogModel ProbLogModel.Formula ProbLogModel.GroundAcyclic ProbLogProofs.GroundSem
+open ProbLogModel ProbLogModel.Formula ProbLogModel.GroundAcyclic ProbLogProofs.GroundSem ProbLogProofs.GroundNames
 open ProbLogModel.Sem (getB)
 
 /-! ### valuations that agree with a total choice -/
@@ -97,26 +98,35 @@ structure Inv (chosen : Array Bool) (M : Atom → Bool) (st : St) : Prop where
   t : TInv chosen M st
 
 /-- the store only grows and table entries are kept -/
-structure Ext (st st' : St) : Prop where
+structure Ext0 (st st' : St) : Prop where
   grows : Grows st.store st'.store
   table : ∀ a k, lookup st.table a = some k → lookup st'.table a = some k
 
-theorem Ext.refl (st : St) : Ext st st := ⟨Grows.refl _, fun _ _ h => h⟩
+theorem Ext0.refl (st : St) : Ext0 st st := ⟨Grows.refl _, fun _ _ h => h⟩
+
+theorem Ext0.trans {a b c : St} (h1 : Ext0 a b) (h2 : Ext0 b c) : Ext0 a c :=
+  ⟨h1.grows.trans h2.grows, fun x k h => h2.table x k (h1.table x k h)⟩
+
+/-- ... and the query / evidence names are untouched (evaluation of a goal; `ground` itself then adds a name) -/
+structure Ext (st st' : St) : Prop extends Ext0 st st' where
+  names : NEq st.store st'.store
+
+theorem Ext.refl (st : St) : Ext st st := ⟨Ext0.refl st, NEq.refl _⟩
 
 theorem Ext.trans {a b c : St} (h1 : Ext a b) (h2 : Ext b c) : Ext a c :=
-  ⟨h1.grows.trans h2.grows, fun x k h => h2.table x k (h1.table x k h)⟩
+  ⟨h1.toExt0.trans h2.toExt0, h1.names.trans h2.names⟩
 
 /-- A store step that keeps the table. -/
 theorem Inv.store_step {chosen : Array Bool} {M : Atom → Bool} {st : St} {S' : Store} (h : Inv chosen M st)
-    (hs : SInv S') (hg : Grows st.store S') :
+    (hs : SInv S') (hg : Grows st.store S') (hn : NEq st.store S') :
     Inv chosen M { st with store := S' } ∧ Ext st { st with store := S' } :=
-  ⟨⟨hs, fun a k hl => (h.t a k hl).mono hg⟩, ⟨hg, fun _ _ hl => hl⟩⟩
+  ⟨⟨hs, fun a k hl => (h.t a k hl).mono hg⟩, ⟨⟨hg, fun _ _ hl => hl⟩, hn⟩⟩
 
 /-! ### builder steps -/
 
 theorem addOr_step {S : Store} (hs : SInv S) (cs : List Key) (hne : cs ≠ [])
     (hb : ∀ c ∈ cs, keyBelow S.nodes.length c) :
-    ∃ S' k, S.addOr cs = .ok (S', k) ∧ SInv S' ∧ Grows S S' ∧ keyBelow S'.nodes.length k ∧
+    ∃ S' k, S.addOr cs = .ok (S', k) ∧ SInv S' ∧ Grows S S' ∧ NEq S S' ∧ keyBelow S'.nodes.length k ∧
       ∀ ρ, Consistent S' ρ → keyVal ρ k = cs.any (keyVal ρ) := by
   cases h : S.addOr cs with
   | error e =>
@@ -126,11 +136,11 @@ theorem addOr_step {S : Store} (hs : SInv S) (cs : List Key) (hne : cs ≠ [])
     obtain ⟨S', k⟩ := r
     have hc := addCompound_cres _ _ _ _ _ _ _ _ _ h
     exact ⟨S', k, rfl, ⟨hc.wf hs.wf, hc.acyclic hs.acyc hb, by rw [hc.opts]; exact hs.keepAll⟩, hc.grows,
-      hc.key_below hs.wf hb, fun ρ hρ => hc.sem hs.wf ρ hρ⟩
+      NEq.of_names_eq (addCompound_names_none h), hc.key_below hs.wf hb, fun ρ hρ => hc.sem hs.wf ρ hρ⟩
 
 theorem addAnd_step {S : Store} (hs : SInv S) (cs : List Key) (hne : cs ≠ [])
     (hb : ∀ c ∈ cs, keyBelow S.nodes.length c) :
-    ∃ S' k, S.addAnd cs = .ok (S', k) ∧ SInv S' ∧ Grows S S' ∧ keyBelow S'.nodes.length k ∧
+    ∃ S' k, S.addAnd cs = .ok (S', k) ∧ SInv S' ∧ Grows S S' ∧ NEq S S' ∧ keyBelow S'.nodes.length k ∧
       ∀ ρ, Consistent S' ρ → keyVal ρ k = cs.all (keyVal ρ) := by
   cases h : S.addAnd cs with
   | error e =>
@@ -140,7 +150,7 @@ theorem addAnd_step {S : Store} (hs : SInv S) (cs : List Key) (hne : cs ≠ [])
     obtain ⟨S', k⟩ := r
     have hc := addCompound_cres _ _ _ _ _ _ _ _ _ h
     exact ⟨S', k, rfl, ⟨hc.wf hs.wf, hc.acyclic hs.acyc hb, by rw [hc.opts]; exact hs.keepAll⟩, hc.grows,
-      hc.key_below hs.wf hb, fun ρ hρ => hc.sem hs.wf ρ hρ⟩
+      NEq.of_names_eq (addCompound_names_none h), hc.key_below hs.wf hb, fun ρ hρ => hc.sem hs.wf ρ hρ⟩
 
 theorem addName_sinv {S : Store} (hs : SInv S) (n : Name) (k : Key) (l : Label) :
     SInv (S.addName n k l) :=
@@ -233,16 +243,18 @@ theorem addAtom_pNone {S : Store} (hk : S.opts.keepAll = false) (ident : Ident) 
 theorem addAtom_step {S : Store} (hs : SInv S) (chosen : Array Bool) (c : Nat) (w : Weight) (group : Option Nat)
     (name : Option Name) :
     SInv (S.addAtom (.user c) .normal w group name).1 ∧ Grows S (S.addAtom (.user c) .normal w group name).1 ∧
+    NEq S (S.addAtom (.user c) .normal w group name).1 ∧
     isFalse (S.addAtom (.user c) .normal w group name).2 = false ∧
     Den chosen (S.addAtom (.user c) .normal w group name).1 (S.addAtom (.user c) .normal w group name).2
       (getB chosen c) := by
   have hst := Formula.addAtom_step S (.user c) .normal w group name true false
   have hk := addAtom_normal S (.user c) w group name true false
   have ho := addAtom_opts S (.user c) .normal w group name true false
-  generalize S.addAtom (.user c) .normal w group name = R at hst hk ho
+  have hne := addAtom_neq S (.user c) .normal w group name true false
+  generalize S.addAtom (.user c) .normal w group name = R at hst hk ho hne
   obtain ⟨S', k⟩ := R
   obtain ⟨i, hi, hl⟩ := hk
-  simp only at hi hl ho hst ⊢
+  simp only at hi hl ho hst hne ⊢
   subst hi
   have hw' : WF S' := hst.1 hs.wf
   obtain ⟨h1, g, e, nm, hn⟩ := hw'.atom _ _ hl
@@ -250,7 +262,7 @@ theorem addAtom_step {S : Store} (hs : SInv S) (chosen : Array Bool) (c : Nat) (
     rcases Nat.lt_or_ge (i - 1) S'.nodes.length with hlt | hge
     · exact hlt
     · rw [List.getElem?_eq_none hge] at hn; cases hn
-  refine ⟨⟨hw', hst.2.2.2 hs.acyc, by rw [ho]; exact hs.keepAll⟩, hst.2.1, rfl, ?_, fun ρ hρ => ?_⟩
+  refine ⟨⟨hw', hst.2.2.2 hs.acyc, by rw [ho]; exact hs.keepAll⟩, hst.2.1, hne, rfl, ?_, fun ρ hρ => ?_⟩
   · show ((i : Nat) : Int).natAbs ≤ _
     rw [Int.natAbs_natCast]; omega
   · rw [keyVal_pos ρ i h1]
